@@ -193,7 +193,7 @@ CHECKS["C16"] = dict(
                       "site would go unnoticed).")
 
 CHECKS["C03"] = dict(
-    text="Battery.tla is one state machine (Charge(pilot, duration, noise draw), Reset, ResetTo(c), ResetRefused) for the ideal, stepwise two-stage "
+    text="Battery.tla is one state machine (Charge(pilot, duration, noise draw), Reset, ResetTo(c), ResetRefused, RoundTrip through JSON) for the ideal, stepwise two-stage "
          "and continuous two-stage laws in exact integer arithmetic (continuous law: rigorous rational enclosure with K "
          "Euler micro-steps). TLC proves RateNonNegative, RateAtMostPilot, PowerAtMostMax, ChargeWithinCapacity, "
          "ChargeNeverDecreases, DeliveredIsStored over every lattice battery, noise draw and call sequence within the "
@@ -208,7 +208,7 @@ CHECKS["C03"] = dict(
 CHECKS["C14"] = dict(
     text="On Battery.tla with noise off TLC checks the documented laws as theorems over every reachable state of charge: "
          "IdealIsMinOfThree, ZeroPilot, Monotone (in pilot and in T), Split (T = T/2 + T/2), DecliningStage, "
-         "TwoStageVsIdeal, EnclosureTight, ResetRestores, ResetToSets, RefusedResetChangesNothing, on a per-state probe table of the spec's answer to every "
+         "TwoStageVsIdeal, EnclosureTight, ResetRestores, ResetToSets, RefusedResetChangesNothing (also after a JSON round trip of the battery inside its EV and station), on a per-state probe table of the spec's answer to every "
          "(pilot, duration) call. The real classes must reproduce the exact ideal and stepwise values, lie inside the "
          "rigorous enclosure of the continuous law, and satisfy the split / monotonicity / zero-pilot / reset identities "
          "directly at float precision.",
